@@ -279,10 +279,10 @@ End Fixed.
 Section Base58.
 Variable skip : list Z -> dres (list Z).
 Variable b58_encode : list Z -> list Z.
-Variable b58_decode : list Z -> option (list Z).
+Variable b58_decode : list Z -> outcome (list Z).
 (* the base58 0.2.0 decoder has a fixed 132-byte buffer: the premise is only
    asked (and only true of the crate) up to that length *)
-Hypothesis b58_roundtrip : forall bs, bytes_wf bs -> len bs <= 132 -> b58_decode (b58_encode bs) = Some bs.
+Hypothesis b58_roundtrip : forall bs, bytes_wf bs -> len bs <= 132 -> b58_decode (b58_encode bs) = Ok bs.
 
 Lemma byron_to_vec_wf a : byron_wf a -> bytes_wf (byron_to_vec a).
 Proof.
@@ -302,6 +302,6 @@ Qed.
 
 Lemma base58_ok_crc s a : from_base58 skip b58_decode s = Ok a -> crc32 (fst a) = snd a.
 Proof.
-  unfold from_base58. destruct (b58_decode s); [|discriminate]. apply from_bytes_ok_crc.
+  unfold from_base58. destruct (b58_decode s); try discriminate. apply from_bytes_ok_crc.
 Qed.
 End Base58.
